@@ -294,9 +294,13 @@ func argTextD(v ssa.Value, d int, seen map[ssa.Value]bool) string {
 		if cn := core.CalleeName(&x.Call); cn == "fmt.Errorf" || cn == "errors.New" {
 			return name + "(…)" // message text is for people
 		}
+		step := 2
+		if cn := core.CalleeName(&x.Call); strings.HasPrefix(cn, "strings.") || strings.HasPrefix(cn, "strconv.") {
+			step = 1 // chains of pure string helpers (ReplaceAll(ReplaceAll(…))) are values, not calls into the program
+		}
 		var as []string
 		for _, a := range core.CallArgs(&x.Call) {
-			as = append(as, argTextD(a, d+2, seen))
+			as = append(as, argTextD(a, d+step, seen))
 		}
 		return name + "(" + strings.Join(as, ", ") + ")"
 	case *ssa.Phi:
